@@ -18,6 +18,7 @@ pub fn run(entry: &str, v: &Value) -> Option<Result<String, String>> {
         "fleet_wide_broadcast" => fleet_wide_broadcast(v),
         "fleet_health_probe_malformed" => fleet_health_probe_malformed(),
         "ws_default_limits" => rt2(ws_default_limits()),
+        "ws_handshake_only_hook" => ws_handshake_only_hook::run(),
         "client_survives_cancel_and_idle" => client_survives_cancel_and_idle(),
         "peer_broadcast_payloads" => peer_broadcast_payloads(),
         "registry_message_bodies" => registry_message_bodies(),
@@ -1633,4 +1634,128 @@ fn svs_early_stop_releases() -> Result<String, String> {
     wait_released("pull_consume_async (async client)", 4)?;
     rt.shutdown_background();
     Ok("early-stopped blocking and async pulls released their streams".into())
+}
+
+// ---------------------------------------------------------------------------------------------
+// C15: connect callbacks of every flavour run for an accepted connection. Here the server's only
+// connect callback is the handshake-aware one (no plain callback, no attached registry), served
+// by the built-in accept loop: it must fire once, its alias must be present until disconnect,
+// and its notification must precede the first response.
+mod ws_handshake_only_hook {
+    // Cargo features needed: websocket
+    //! C15 demo 1: a server whose only connect callback is handshake-aware, served
+    //! through the built-in accept loop. The callback must fire once per accepted
+    //! connection, the notify it queues must be the first frame on the wire, and
+    //! the alias it attaches must be resolvable while the connection is up.
+
+    use std::sync::Arc;
+    use std::sync::atomic::{AtomicUsize, Ordering};
+    use std::time::Duration;
+
+    use futures_util::{SinkExt, StreamExt};
+    use repe::server::Router;
+    use repe::tokio_tungstenite::connect_async;
+    use repe::tokio_tungstenite::tungstenite::Message as WsMessage;
+    use repe::{Message, NotifyBody, PeerRegistry, QueryFormat, WebSocketServer};
+    use serde_json::json;
+    use tokio::net::TcpListener;
+
+    fn ping_request(id: u64) -> Vec<u8> {
+        Message::builder()
+            .id(id)
+            .query_format(QueryFormat::JsonPointer)
+            .query_str("/ping")
+            .body_json(&json!({}))
+            .expect("body")
+            .build()
+            .into_wire_bytes()
+    }
+
+    pub async fn scenario() {
+        let router = Router::new().with_json("/ping", |_| Ok(json!({ "ok": true })));
+
+        // The embedder wires the registry by hand from the handshake-aware hook
+        // (insert + alias in one place), and evicts on disconnect.
+        let peers = PeerRegistry::new();
+        let connects = Arc::new(AtomicUsize::new(0));
+        let disconnects = Arc::new(AtomicUsize::new(0));
+
+        let peers_c = peers.clone();
+        let peers_d = peers.clone();
+        let connects_h = Arc::clone(&connects);
+        let disconnects_h = Arc::clone(&disconnects);
+        let server = WebSocketServer::new(router)
+            .on_peer_connect_with_handshake(move |peer, hs| {
+                connects_h.fetch_add(1, Ordering::SeqCst);
+                peers_c.insert(peer.clone());
+                if let Some(token) = hs.query().and_then(|q| q.strip_prefix("token=")) {
+                    peers_c.alias(peer.peer_id(), token);
+                }
+                let _ = peer.send_notify("/welcome", NotifyBody::Json(b"{}".to_vec()));
+            })
+            .on_peer_disconnect(move |id| {
+                disconnects_h.fetch_add(1, Ordering::SeqCst);
+                peers_d.remove(id);
+            });
+
+        let listener = TcpListener::bind(("127.0.0.1", 0)).await.unwrap();
+        let addr = listener.local_addr().unwrap();
+        let (stop_tx, stop_rx) = tokio::sync::oneshot::channel::<()>();
+        let serve = tokio::spawn(async move {
+            server
+                .serve_listener_with_shutdown(listener, "/repe", async {
+                    let _ = stop_rx.await;
+                })
+                .await
+        });
+
+        let (mut ws, _resp) = connect_async(format!("ws://{addr}/repe?token=abc123"))
+            .await
+            .expect("upgrade");
+        ws.send(WsMessage::Binary(ping_request(1))).await.unwrap();
+
+        // Collect the first two REPE frames the server puts on the wire.
+        let mut frames = Vec::new();
+        while frames.len() < 2 {
+            let next = tokio::time::timeout(Duration::from_secs(30), ws.next()).await;
+            let Ok(Some(Ok(frame))) = next else { break };
+            if let WsMessage::Binary(bytes) = frame {
+                frames.push(Message::from_slice_exact(&bytes).expect("repe frame"));
+            }
+        }
+
+        assert_eq!(
+            connects.load(Ordering::SeqCst),
+            1,
+            "the handshake-aware connect callback must fire once for an accepted connection"
+        );
+        assert!(
+            peers.get_by("abc123").is_some(),
+            "peer alias must be present from connect until disconnect"
+        );
+        assert_eq!(frames.len(), 2, "expected the welcome notify and the response");
+        assert_ne!(frames[0].header.notify, 0, "first frame must be the connect-hook notify");
+        assert_eq!(frames[0].query_str().unwrap(), "/welcome");
+        assert_eq!(frames[1].header.id, 1, "the response comes after the notify");
+
+        drop(ws);
+        for _ in 0..6000 {
+            if disconnects.load(Ordering::SeqCst) == 1 && peers.get_by("abc123").is_none() {
+                break;
+            }
+            tokio::time::sleep(Duration::from_millis(10)).await;
+        }
+        assert_eq!(disconnects.load(Ordering::SeqCst), 1);
+        assert!(peers.get_by("abc123").is_none());
+        assert!(peers.is_empty());
+
+        let _ = stop_tx.send(());
+        let _ = tokio::time::timeout(Duration::from_secs(2), serve).await;
+    }
+    pub fn run() -> Result<String, String> {
+        let rt = tokio::runtime::Builder::new_multi_thread().worker_threads(2).enable_all().build().unwrap();
+        rt.block_on(scenario());
+        rt.shutdown_background();
+        Ok("handshake-aware connect callback fired once, alias present until disconnect, notify before response".into())
+    }
 }
